@@ -31,13 +31,15 @@ def cfgs_for(preset, mode, quotes):
 
 def flat(tokens, out, auto=0):
     for t in tokens:
-        if t.type == "link_open" and t.info == "auto":
+        # an autolink: marked by the autolink rule in markup and in info (either is enough: the text between the
+        # two tokens is the address itself, whatever a later rule reads off the marker)
+        if t.type == "link_open" and (t.info == "auto" or t.markup == "autolink"):
             auto += 1
         d = t.as_dict(children=False)
         d.pop("children", None)
         content = d.pop("content") if t.type in ("text", "text_special") else None
         out.append((t.type, 1 if (auto and t.type == "text") else 0, A.jstr(d), content))
-        if t.type == "link_close" and t.info == "auto":
+        if t.type == "link_close" and (t.info == "auto" or t.markup == "autolink"):
             auto -= 1
         if t.children:
             flat(t.children, out, 0)
